@@ -4,19 +4,29 @@
 
   Quantified over every configuration, pre-existing store, finite history of operations (proposals
   by name or key with any slot/roots/domains, faults with the failed write landed or not, restarts,
-  attestations and generic signing in between) and key.
+  attestations and generic signing in between, accounts created, locked and unlocked at run time, wallet
+  lock / unlock, slashing-protection import commands with any file between a stop and a start) and key.
+
+  The only operation of `Op` the histories of `C02` exclude (`NoRawImport`) is the raw rules-level import
+  `Op.importRec` (`importKey`), which OVERWRITES the record of its key and which dirk reaches only through
+  the import command (`Op.importCmd`, `importFile`), which merges raise-only first.  The `…_with_imports`
+  theorems generalise to histories that also contain raw imports, each of which covers what had been
+  released for its key when it is applied (`SafeHist` / `ImportCovers`, Dirk.Model.Instance).  A raw import
+  below a released slot makes the statement false: `C02_lowering_import_counterexample`.
 -/
 import Dirk.Lemmas.Run
 import Dirk.Spec.Slashing
 import Dirk.Props.KernelsEq
+import Dirk.Lemmas.SszBinding
 
 namespace Dirk
 open Spec
 
-/-- **C02 (strictly increasing).** -/
-theorem C02_increasing (cfg : Config) (db0 : Db) (ops : List Op) (k : Bytes) :
+/-- generalisation of `C02_increasing` to histories with raw imports that cover what had been released -/
+theorem C02_increasing_with_imports (cfg : Config) (db0 : Db) (ops : List Op) (hs : SafeHist (init cfg db0) ops)
+    (k : Bytes) :
     (proposalsFor (run (init cfg db0) ops).propLog k).Pairwise (fun a b => a.slot < b.slot) := by
-  have h := (run_propInv ops _ (init_propInv cfg db0)).mono
+  have h := (run_propInv_with_imports ops _ (init_propInv cfg db0) hs).mono
   unfold proposalsFor
   rw [List.pairwise_map]
   have h1 := List.Pairwise.filter (fun e => decide (e.1 = k)) h
@@ -26,14 +36,25 @@ theorem C02_increasing (cfg : Config) (db0 : Db) (ops : List Op) (k : Bytes) :
   have hbk : b.1 = k := by simpa using (List.mem_filter.mp hb).2
   exact hab (by rw [hak, hbk])
 
-/-- **C02.** No two proposal signatures released for one key are for the same slot. -/
-theorem C02 (cfg : Config) (db0 : Db) (ops : List Op) (k : Bytes) :
+/-- generalisation of `C02` to histories with raw imports that cover what had been released -/
+theorem C02_with_imports (cfg : Config) (db0 : Db) (ops : List Op) (hs : SafeHist (init cfg db0) ops) (k : Bytes) :
     (proposalsFor (run (init cfg db0) ops).propLog k).Pairwise
       (fun a b => ¬ DoubleProposal a b ∧ ¬ DoubleProposal b a) := by
-  refine (C02_increasing cfg db0 ops k).imp ?_
+  refine (C02_increasing_with_imports cfg db0 ops hs k).imp ?_
   intro a b h
   unfold DoubleProposal
   constructor <;> (intro ⟨h1, _⟩; omega)
+
+/-- **C02 (strictly increasing).** -/
+theorem C02_increasing (cfg : Config) (db0 : Db) (ops : List Op) (k : Bytes) (h : NoRawImport ops) :
+    (proposalsFor (run (init cfg db0) ops).propLog k).Pairwise (fun a b => a.slot < b.slot) :=
+  C02_increasing_with_imports cfg db0 ops (safeHist_of_noRawImport ops _ h) k
+
+/-- **C02.** No two proposal signatures released for one key are for the same slot. -/
+theorem C02 (cfg : Config) (db0 : Db) (ops : List Op) (k : Bytes) (h : NoRawImport ops) :
+    (proposalsFor (run (init cfg db0) ops).propLog k).Pairwise
+      (fun a b => ¬ DoubleProposal a b ∧ ¬ DoubleProposal b a) :=
+  C02_with_imports cfg db0 ops (safeHist_of_noRawImport ops _ h) k
 
 /-- The statement is **false** of the rule as shipped at the pinned commit: slot 2^63 is approved,
     stored as a negative watermark, and approved again. -/
@@ -49,6 +70,111 @@ theorem C02_fixed_refuses : (onPropose [] [7] ⟨domProposer, two63⟩ {}).1 = .
 example : (onPropose [] [7] ⟨domProposer, 5⟩ {}).1 = .approved := by decide
 example : (onPropose (onPropose [] [7] ⟨domProposer, 5⟩ {}).2 [7] ⟨domProposer, 6⟩ {}).1 = .approved := by decide
 example : (onPropose (onPropose [] [7] ⟨domProposer, 5⟩ {}).2 [7] ⟨domProposer, 5⟩ {}).1 = .denied := by decide
+
+/-! ### histories with a live import between two signing operations -/
+
+namespace C02ex
+
+def dom : Bytes := [0, 0, 0, 0] ++ List.replicate 28 0
+def pk : Bytes := List.replicate 48 7
+def acct : Account := { wallet := "w", name := "a", pubkey := pk }
+def cfg : Config :=
+  { accounts := [acct],
+    access := [("c", [{ wallet := .star .any, account := .star .any, ops := ["All"] }])] }
+def data (slot : Nat) (body : Bytes) : PropData :=
+  { domain := some dom, slot := slot, proposer := 0, parentRoot := some [], stateRoot := some [],
+    bodyRoot := some body }
+def prop (slot : Nat) (body : Bytes) : Op := .prop "c" { name := "w/a" } (data slot body) {}
+
+theorem pc : preCheck cfg "c" { name := "w/a" } opPropose = .ok acct := by decide
+
+theorem root (slot : Nat) (body : Bytes) : ∃ r, (data slot body).signingRoot = some r :=
+  ⟨_, header_signingRoot_exists _ _ (by show dom.length = 32; decide)⟩
+
+/-- the store after slot 10 has been signed -/
+def db1 : Db := (onPropose [] pk { domain := dom, slot := 10 } {}).2
+def s1 : Inst := { cfg := cfg, db := db1, propLog := [(pk, data 10 [1])] }
+def s2 (r : Protection) : Inst := { cfg := cfg, db := importKey db1 (toBytes48 pk) r, propLog := [(pk, data 10 [1])] }
+
+theorem step1 : (step (init cfg []) (prop 10 [1])).1 = s1 := by
+  obtain ⟨r, hr⟩ := root 10 [1]
+  have h := signProp_approved_eq (s := init cfg []) (c := "c") (a := { name := "w/a" }) (d := data 10 [1])
+    (f := {}) (acct := acct) (db' := db1) (by decide) pc (by decide) hr
+  show (signProp (init cfg []) "c" { name := "w/a" } (data 10 [1]) {} false).1 = s1
+  rw [h]; rfl
+
+theorem step2 (r : Protection) : (step s1 (.importRec pk r)).1 = s2 r := rfl
+
+/-- against an imported slot 12, slot 11 is refused -/
+theorem step3_refused :
+    step (s2 { slot := 12 }) (prop 11 [1]) = (s2 { slot := 12 }, .one ⟨.denied, none⟩) := by
+  have h := signProp_denied_eq (s := s2 { slot := 12 }) (c := "c") (a := { name := "w/a" })
+    (d := data 11 [1]) (f := {}) (acct := acct) (db' := (s2 { slot := 12 }).db) (by decide) pc (by decide)
+  show ((signProp (s2 { slot := 12 }) "c" { name := "w/a" } (data 11 [1]) {} false).1,
+        Out.one (signProp (s2 { slot := 12 }) "c" { name := "w/a" } (data 11 [1]) {} false).2) = _
+  rw [h]
+
+/-- against an imported slot 5, a second, different block at slot 10 is approved and signed -/
+theorem step3_signed :
+    (step (s2 { slot := 5 }) (prop 10 [2])).1.propLog = [(pk, data 10 [1]), (pk, data 10 [2])] := by
+  obtain ⟨r, hr⟩ := root 10 [2]
+  have h := signProp_approved_eq (s := s2 { slot := 5 }) (c := "c") (a := { name := "w/a" })
+    (d := data 10 [2]) (f := {}) (acct := acct)
+    (db' := (onPropose (s2 { slot := 5 }).db pk { domain := dom, slot := 10 } {}).2) (by decide) pc (by decide) hr
+  show (signProp (s2 { slot := 5 }) "c" { name := "w/a" } (data 10 [2]) {} false).1.propLog = _
+  rw [h]; rfl
+
+theorem run3 (r : Protection) (d : Op) :
+    run (init cfg []) [prop 10 [1], .importRec pk r, d] = (step (s2 r) d).1 := by
+  show (step (step (step (init cfg []) (prop 10 [1])).1 (.importRec pk r)).1 d).1 = _
+  rw [step1, step2]
+
+end C02ex
+
+/-- non-vacuity of the import case: a history with an import between two proposals that satisfies the
+    hypothesis of `C02_with_imports` (the imported slot 12 covers the released slot 10); the proposal after the
+    import, slot 11, is refused and nothing is logged for it. -/
+example :
+    SafeHist (init C02ex.cfg []) [C02ex.prop 10 [1], .importRec C02ex.pk { slot := 12 }, C02ex.prop 11 [1]] ∧
+    (step (run (init C02ex.cfg []) [C02ex.prop 10 [1], .importRec C02ex.pk { slot := 12 }]) (C02ex.prop 11 [1])).2
+      = .one ⟨.denied, none⟩ ∧
+    (run (init C02ex.cfg []) [C02ex.prop 10 [1], .importRec C02ex.pk { slot := 12 }, C02ex.prop 11 [1]]).propLog
+      = [(C02ex.pk, C02ex.data 10 [1])] := by
+  refine ⟨⟨trivial, ?_, trivial, trivial⟩, ?_, ?_⟩
+  · rw [C02ex.step1]; decide
+  · show (step (step (step (init C02ex.cfg []) (C02ex.prop 10 [1])).1 (.importRec C02ex.pk _)).1 _).2 = _
+    rw [C02ex.step1, C02ex.step2, C02ex.step3_refused]
+  · rw [C02ex.run3, C02ex.step3_refused]; rfl
+
+/-- a file for the import command that states LESS (slot 5) than what was signed (slot 10) -/
+def C02ex.lowFile : IFile :=
+  { metadata := some ("5", "0x" ++ String.ofList (List.replicate 64 '0')),
+    data := [{ pubkey := "0x070707070707070707070707070707070707070707070707070707070707070707070707070707070707070707070707",
+               blocks := ["5"], atts := [] }] }
+
+/-- non-vacuity of the import-command case: a history in which the import command is run with a file
+    holding a lower slot than what was signed, between two proposals, is a history `C02` speaks about. -/
+example : NoRawImport [C02ex.prop 10 [1], .importCmd ("0x" ++ String.ofList (List.replicate 64 '0')) C02ex.lowFile,
+    C02ex.prop 10 [2]] := by
+  decide
+
+example :
+    (proposalsFor (run (init C02ex.cfg [])
+        [C02ex.prop 10 [1], .importCmd ("0x" ++ String.ofList (List.replicate 64 '0')) C02ex.lowFile,
+         C02ex.prop 10 [2]]).propLog C02ex.pk).Pairwise (fun a b => ¬ DoubleProposal a b ∧ ¬ DoubleProposal b a) :=
+  C02 _ _ _ _ (by decide)
+
+/-- **With a raw import below a released slot the statement is false.**  A block at slot 10 is signed; a raw
+    import (`Op.importRec`, not the import command) then states
+    slot 5 for the key (the record is overwritten, not merged); a different block at slot 10 is then
+    approved and signed. -/
+theorem C02_lowering_import_counterexample :
+    ∃ (cfg : Config) (ops : List Op) (k : Bytes),
+      ¬ (proposalsFor (run (init cfg []) ops).propLog k).Pairwise
+          (fun a b => ¬ DoubleProposal a b ∧ ¬ DoubleProposal b a) := by
+  refine ⟨C02ex.cfg, [C02ex.prop 10 [1], .importRec C02ex.pk { slot := 5 }, C02ex.prop 10 [2]], C02ex.pk, ?_⟩
+  rw [C02ex.run3, C02ex.step3_signed]
+  decide
 
 /-- **tie by translation.** `onPropose` is, for all stores, keys, requests and fault plans, the function `factx`
     translates from the current Go source of `OnSignBeaconProposal` (domain check, MaxInt64 guard, fetch,
